@@ -20,7 +20,8 @@
 Require Import Cirbo.Model.Base Cirbo.Model.Gate Cirbo.Model.Circuit Cirbo.Model.Connect
         Cirbo.Model.History Cirbo.Model.WF.
 Require Import Cirbo.Proofs.WFBase Cirbo.Proofs.WFEmplace Cirbo.Proofs.WFStep Cirbo.Proofs.WFSound.
-Require Import Cirbo.Generated.CircuitCore Cirbo.Proofs.CircuitCoreGen.
+Require Import Cirbo.Model.Eval Cirbo.Model.TseytinAlg.
+Require Import Cirbo.Generated.CircuitCore Cirbo.Proofs.CircuitCoreGen Cirbo.Proofs.CircuitCoreGen2.
 
 Theorem C02_empty_wf : WF empty_circuit /\ inputs_nullary empty_circuit.
 Proof. exact Inv_empty. Qed.
@@ -93,6 +94,18 @@ Theorem C02_core_methods_regenerated :
   (forall c b, NoDup (dkeys (blocks c)) -> gen__remove_block c b = remove_block_raw c b) /\
   (forall c b, NoDup (dkeys (blocks c)) -> gen_remove_block c b = remove_block c b).
 Proof. exact core_methods_regenerated. Qed.
+
+(* second group (grammar extended by list indexing, enumerate, item stores through a reference and two in-place
+   idioms): the index accessors, Block._rename_gate and rename_gate.  index_of_input and all_indexes_of_output have
+   no counterpart in the model: they are regenerated as parts of gen_rename_gate. *)
+Theorem C02_core_methods_regenerated_2 :
+  (forall c i, gen_output_at_index c i = output_at_index_z c i) /\
+  (forall c i, gen_output_at_index c (Z.of_nat i) = output_at_index c i) /\
+  (forall c i, gen_input_at_index c (Z.of_nat i)
+               = match nth_error (inputs c) i with Some x => Ok x | None => Err GateDoesntExistError end) /\
+  (forall b old new, gen_Block__rename_gate b old new = Ok (rename_in_block old new b)) /\
+  (forall c old new, gen_rename_gate c old new = rename_gate c old new).
+Proof. exact core_methods_regenerated_2. Qed.
 
 (* the uniqueness hypothesis follows from the invariant of C02_step_wf *)
 Theorem C02_core_removal_regenerated_wf : forall c,
